@@ -387,11 +387,10 @@ pub fn validate_tree<VV>(
 #[derive(Default)]
 pub struct RunResult {
     pub lines: Vec<String>,
-    pub oracle_failures: Vec<String>,
-    pub panics_unexpected: Vec<String>,
+    /// tagged: "[answer:<op>] ..", "[final] ..", "[panic] ..", "[retain] ..", "[cost] ..", "[cap] .."
+    pub failures: Vec<String>,
     pub max_tree_cmp: u64,
     pub tree_lookups: u64,
-    pub cost_failures: Vec<String>,
     pub max_bin: usize,
     pub tree_bins_seen: u64,
     pub resizes_seen: u64,
@@ -462,6 +461,8 @@ pub trait Target: Sized {
 
 #[derive(Default, Clone, Copy)]
 pub struct SnapStats {
+    pub count: isize,
+    pub size_ctl: isize,
     pub len: usize,
     pub max_bin: usize,
     pub tree_bins: usize,
@@ -469,6 +470,8 @@ pub struct SnapStats {
 
 fn snap_stats<VV>(s: &Snapshot<'_, K, VV>) -> SnapStats {
     let mut st = SnapStats::default();
+    st.count = s.count;
+    st.size_ctl = s.size_ctl;
     if let Some(t) = &s.table {
         st.len = t.len;
         for b in &t.bins {
@@ -953,7 +956,9 @@ pub fn run_case_on<T: Target>(case: &Case, pin: bool) -> RunResult {
     let mut oracles: Vec<Oracle> = vec![Oracle::new(), Oracle::new(), Oracle::new(), Oracle::new()];
     let mut cur = 0usize;
     let mut res = RunResult::default();
-    let mut last_len = 0usize;
+    // per slot: the statistics of the previous snapshot (None after the slot is (re)created)
+    let mut last: Vec<Option<SnapStats>> = vec![None, None, None, None];
+    let mut prev_op: Option<&Op> = None;
     for (opi, op) in case.ops.iter().enumerate() {
         let mut expect: Option<String> = None;
         let outcome = catch_unwind(AssertUnwindSafe(|| -> String {
@@ -968,6 +973,7 @@ pub fn run_case_on<T: Target>(case: &Case, pin: bool) -> RunResult {
             match op {
                 Op::New { slot, cap } => {
                     slots[*slot] = Some(T::new(*cap, th.clone()));
+                    last[*slot] = None;
                     oracles[*slot].clear();
                     cur = *slot;
                     "ok".into()
@@ -1005,14 +1011,14 @@ pub fn run_case_on<T: Target>(case: &Case, pin: bool) -> RunResult {
                             res.max_tree_cmp = res.max_tree_cmp.max(cmps);
                             let bound = (4.0 * ((n + 1) as f64).log2()).ceil() as u64 + 2;
                             if tree && cmps > bound {
-                                res.cost_failures.push(format!(
-                                    "case {} op {}: get({}) in a tree bin of {} keys used {} key comparisons (> {})",
+                                res.failures.push(format!(
+                                    "[cost] case {} op {}: get({}) in a tree bin of {} keys used {} key comparisons (> {})",
                                     case.id, opi, k, n, cmps, bound
                                 ));
                             }
                             if !tree && n > 10 {
-                                res.cost_failures.push(format!(
-                                    "case {} op {}: a list bin holds {} keys in a table of {} bins",
+                                res.failures.push(format!(
+                                    "[cost] case {} op {}: a list bin holds {} keys in a table of {} bins",
                                     case.id, opi, n, len
                                 ));
                             }
@@ -1131,10 +1137,27 @@ pub fn run_case_on<T: Target>(case: &Case, pin: bool) -> RunResult {
                     }
                     res.max_bin = res.max_bin.max(st.max_bin);
                     res.tree_bins_seen += st.tree_bins as u64;
-                    if last_len != 0 && st.len > last_len {
-                        res.resizes_seen += 1;
+                    if let Some(p) = last[cur] {
+                        if p.len != 0 && st.len > p.len {
+                            res.resizes_seen += 1;
+                        }
+                        for e in capacity_rules(&p, &st, prev_op) {
+                            res.failures.push(format!(
+                                "[cap] case {} op {} after `{}`: {}",
+                                case.id,
+                                opi,
+                                prev_op.map(|o| o.line(case)).unwrap_or_default(),
+                                e
+                            ));
+                        }
                     }
-                    last_len = st.len;
+                    if st.len != 0 && st.len < (1 << 30) && st.count >= st.size_ctl {
+                        res.failures.push(format!(
+                            "[cap] case {} op {}: at rest count={} has reached the growth threshold {} of a {}-bin table",
+                            case.id, opi, st.count, st.size_ctl, st.len
+                        ));
+                    }
+                    last[cur] = Some(st);
                     s
                 }
                 Op::Extend { hint, items } => {
@@ -1152,12 +1175,14 @@ pub fn run_case_on<T: Target>(case: &Case, pin: bool) -> RunResult {
                         oracle_put(o, it);
                     }
                     slots[*slot] = Some(T::collect(items, *hint));
+                    last[*slot] = None;
                     cur = *slot;
                     "ok".into()
                 }
                 Op::CloneTo(d) => {
                     let c = m!().clone_();
                     slots[*d] = Some(c);
+                    last[*d] = None;
                     oracles[*d] = oracles[cur].clone();
                     "ok".into()
                 }
@@ -1191,8 +1216,9 @@ pub fn run_case_on<T: Target>(case: &Case, pin: bool) -> RunResult {
         };
         if let Some(e) = expect {
             if e != line {
-                res.oracle_failures.push(format!(
-                    "case {} op {} `{}`: implementation answered `{}`, reference answered `{}`",
+                res.failures.push(format!(
+                    "[answer:{}] case {} op {} `{}`: implementation answered `{}`, reference answered `{}`",
+                    op.line(case).split(' ').next().unwrap_or(""),
                     case.id,
                     opi,
                     op.line(case),
@@ -1207,8 +1233,8 @@ pub fn run_case_on<T: Target>(case: &Case, pin: bool) -> RunResult {
         } else if line == "panic" {
             let injected = matches!(op, Op::Retain { panic_at: Some(_), .. });
             if !injected {
-                res.panics_unexpected
-                    .push(format!("case {} op {} `{}` panicked", case.id, opi, op.line(case)));
+                res.failures
+                    .push(format!("[panic] case {} op {} `{}` panicked", case.id, opi, op.line(case)));
             } else if let Some(m) = &slots[cur] {
                 // re-synchronise the oracle: entries may only have been *removed*, and only ones
                 // the predicate rejects
@@ -1220,8 +1246,8 @@ pub fn run_case_on<T: Target>(case: &Case, pin: bool) -> RunResult {
                 for (k, e) in o.clone() {
                     if !keys_now.contains(&k) {
                         if p(k, e.1) {
-                            res.oracle_failures.push(format!(
-                                "case {} op {}: retain removed key {} although the predicate accepts it",
+                            res.failures.push(format!(
+                                "[retain] case {} op {}: retain removed key {} although the predicate accepts it",
                                 case.id, opi, k
                             ));
                         }
@@ -1231,20 +1257,23 @@ pub fn run_case_on<T: Target>(case: &Case, pin: bool) -> RunResult {
             }
         }
         res.lines.push(line);
+        if !matches!(op, Op::Snap) {
+            prev_op = Some(op);
+        }
     }
     for (si, s) in slots.iter().enumerate() {
         if let Some(m) = s {
             let a = m.contents();
             let b: Vec<(u32, u32, u64, u32)> = oracles[si].iter().map(|(k, e)| (*k, e.0, e.1, e.2)).collect();
             if a != b {
-                res.oracle_failures.push(format!(
-                    "case {} slot {}: final contents {:?} differ from the reference {:?}",
+                res.failures.push(format!(
+                    "[final] case {} slot {}: final contents {:?} differ from the reference {:?}",
                     case.id, si, a, b
                 ));
             }
             if m.len(false) != b.len() {
-                res.oracle_failures.push(format!(
-                    "case {} slot {}: len() = {} but the reference has {}",
+                res.failures.push(format!(
+                    "[final] case {} slot {}: len() = {} but the reference has {}",
                     case.id,
                     si,
                     m.len(false),
@@ -1254,4 +1283,44 @@ pub fn run_case_on<T: Target>(case: &Case, pin: bool) -> RunResult {
         }
     }
     res
+}
+
+/// C14 oracle on two consecutive snapshots of one map and the operation between them.
+/// "grows" = an existing table is replaced by a longer one (the first allocation is not growth).
+pub fn capacity_rules(p: &SnapStats, n: &SnapStats, op: Option<&Op>) -> Vec<String> {
+    let mut e = vec![];
+    if n.len < p.len {
+        e.push(format!("the table shrank from {} to {} bins", p.len, n.len));
+    }
+    if p.len == 0 || n.len == p.len {
+        return e;
+    }
+    if n.len % p.len != 0 || !(n.len / p.len).is_power_of_two() {
+        e.push(format!("the table went from {} to {} bins, not by doubling", p.len, n.len));
+    }
+    let thr = (p.len - (p.len >> 2)) as isize;
+    match op {
+        Some(Op::Ins(_)) | Some(Op::TryIns(_)) => {
+            let crossed = n.count >= thr;
+            let overfull = p.len < 64 && p.max_bin >= 8;
+            if !crossed && !overfull {
+                e.push(format!(
+                    "an insert grew the table from {} to {} bins although the count ({}) is below three quarters of {} and no bin was overfull (largest bin before: {})",
+                    p.len, n.len, n.count, p.len, p.max_bin
+                ));
+            }
+        }
+        Some(Op::Extend { .. }) | Some(Op::Reserve(_)) => {}
+        Some(other) => {
+            let removal = matches!(other, Op::Rm(_) | Op::Rme(_) | Op::Cip(..) | Op::Retain { .. } | Op::Clear);
+            e.push(format!(
+                "{} grew the table from {} to {} bins",
+                if removal { "an operation that only removes or updates entries" } else { "a non-inserting operation" },
+                p.len,
+                n.len
+            ));
+        }
+        None => {}
+    }
+    e
 }
